@@ -13,7 +13,8 @@ from harness.lib.model import is_err, exc_code
 
 RULE = ('names: 0..8 components, types over every var-number size <= 65535, values empty/ASCII/binary/digest/'
         'reserved URI characters/252..300 bytes, typed numbers at every width boundary; URI strings: structured '
-        'valid + a malformed corner list; wire: valid names + single-edit mutants; pairs of names for prefix/order. '
+        'valid + a malformed corner list; wire: valid names + single-edit mutants; pairs of names for prefix/order; '
+        'call sequences convert / edit the result in place / convert again (a conversion is a function of its argument). '
         'non-trivial = at least one component or a non-empty string; distinct by input hash')
 ASSUMPTIONS = ['CPython semantics of int(), str.split, bytes.hex/fromhex, struct are modelled (Base/Text.v, Base/PyPrim.v)']
 
@@ -180,6 +181,41 @@ def run(ctx):
         r2 = impl(Name.normalize, s)
         cmp_res(ctx, 'Name.normalize(str)', s, M([9, [1, s_of_str(s)]]), r2, name_b)
         ctx.case(('nfs', s), len(s) > 1, {'op': 'Name.from_str', 's': s}, 'name.from_str.' + r[0])
+    # conversions are functions of their argument: what a caller does to an earlier result (the documented return
+    # type is a list of bytearray, editable in place) must not change what the same text denotes later, nor
+    # another component of the same result
+    for i in range(ctx.n(600, 8000)):
+        cs = [G.rand_uri_comp(rng) for _ in range(rng.randint(1, 4))]
+        if rng.random() < 0.6:
+            cs.append(rng.choice(cs))
+        s = '/' + '/'.join(cs)
+        for fn, site in ((Name.from_str, 'Name.from_str'), (Name.normalize, 'Name.normalize(str)')):
+            r = impl(fn, s)
+            if r[0] != 'ok':
+                continue
+            snap = name_b(r[1])
+            for j, c in enumerate(r[1]):
+                if isinstance(c, bytearray) and len(c) > 0:
+                    c[-1] ^= 0x55
+                    rest = [bytes(x) for k, x in enumerate(r[1]) if k > j]
+                    if rest != snap[j + 1:]:
+                        ctx.violation(site, 'components-share-storage',
+                                      f'editing component {j} of the result in place changed a later component', s)
+                        break
+            again = impl(fn, s)
+            if again[0] != 'ok' or name_b(again[1]) != snap:
+                ctx.violation(site, 'result-depends-on-earlier-calls',
+                              'the same text converts to a different name after an earlier result was edited in place', s)
+            ctx.case(('fresh', site, s), True, None, 'name.fresh')
+        if cs:
+            r = impl(Component.from_str, cs[0])
+            if r[0] == 'ok' and isinstance(r[1], bytearray) and len(r[1]) > 0:
+                snap = bytes(r[1])
+                r[1][-1] ^= 0x55
+                again = impl(Component.from_str, cs[0])
+                if again[0] != 'ok' or bytes(again[1]) != snap:
+                    ctx.violation('Component.from_str', 'result-depends-on-earlier-calls',
+                                  'the same text converts to a different component after an earlier result was edited in place', cs[0])
     # wire mutants
     for i in range(ctx.n(1500, 40000)):
         tvs, n = rng.choice(pool)
